@@ -37,6 +37,7 @@ def run(chk):
         r3(chk, T, name)
         r5(chk, T, name)
         r6(chk, T, name)
+        r11(chk, T, name)
         r10(chk, T, name)
     from .. import numrules
     numrules.rule_split_numbers(chk, prog, "C03.R8", maxlen=4 if chk.tier == "quick" else 12,
@@ -604,6 +605,119 @@ def r6(chk, T, name):
         chk.proven(rid, "json_tokener_parse_ex", sig, "json_tokener.c",
                    "%d configurations x byte-class pairs (%d comparisons) agree" % (nconf, npairs))
     chk.floor(rid + "." + name, nconf, 100, "configurations compared")
+
+
+def r11(chk, T, name, K=4):
+    """K bytes in one call against the same bytes fed one per call"""
+    from itertools import product as iproduct
+    rid = "C03.R11"
+    chk.rule(rid, "chunk-length independence inside tokens: from every reachable configuration that is inside a string, an escape or "
+                  "a comment, %d bytes over the representatives '0' 'g' '\"' '\\' 'u' '/' '*' given in one call end with the same status, value "
+                  "presence, end position, successor configuration and amount of text appended to the token (input bytes copied "
+                  "verbatim, decoded pieces) as the same bytes given one per call (a fast path that looks "
+                  "ahead in the chunk must agree with the byte-by-byte path)" % K)
+    ALPHA = [0x30, 0x67, 0x22, 0x5C, 0x75, 0x2F, 0x2A]
+
+    def app(o):
+        """(input bytes appended to the token verbatim, number of other appends) of one call"""
+        v = sum(int(x.get("len") or 0) for x in o.appends if x.get("src") == "input" and isinstance(x.get("len"), int))
+        return v, sum(1 for x in o.appends if x.get("src") != "input")
+    INSIDE = ("string", "string_escape", "escape_unicode", "escape_unicode_need_escape", "escape_unicode_need_u", "comment", "comment_eol",
+              "comment_end", "comment_start", "object_field", "object_field_start")
+    bad = None
+    nconf = ncmp = 0
+    skipped = 0
+    for cfg, outs1 in T.trans.items():
+        top = T.state_name.get(cfg[1][cfg[0]][0])
+        if top not in INSIDE or not any(o.err == 1 for o in outs1):
+            continue
+        try:
+            whole = T.step(cfg, byte_domain=ALPHA, length=K, keep_state=True)
+        except AnalysisBroken:
+            skipped += 1
+            continue
+        nconf += 1
+        W = []
+        for o in whole:
+            if o.err is None:
+                W = None
+                break
+            doms = []
+            for k in range(K):
+                nm = "c" if k == 0 else "c%d" % k
+                doms.append(frozenset(o.stores.roots[nm]) if nm in o.stores.roots else None)
+            nx = None
+            if o.err in (0, 1) and o.next is not None and not any(None in lv for lv in o.next[1]):
+                nx = T.canon(o.next)
+            W.append((doms, (o.err, bool(o.ret_nonnull), o.consumed, nx) + app(o)))
+        if W is None:
+            skipped += 1
+            continue
+        for tup in iproduct(ALPHA, repeat=K):
+            # byte-per-call composition
+            frontier = {(cfg, 0, 0, 0)}
+            rc = set()
+            unknown = False
+            for k, b in enumerate(tup):
+                nxt = set()
+                for c, used, av, ao in frontier:
+                    outs = T.trans.get(c)
+                    if outs is None or T.state_name.get(c[1][c[0]][0]) in OPAQUE:
+                        unknown = True
+                        break
+                    for o in outs:
+                        if b not in o.bytes and (b - 256) not in o.bytes:
+                            continue
+                        if o.err == 1 and o.consumed == 1:
+                            pv, po = app(o)
+                            if k + 1 < K:
+                                nxt.add((o.next, used + 1, av + pv, ao + po))
+                            else:
+                                rc.add((1, bool(o.ret_nonnull), used + 1, T.canon(o.next) if o.next is not None and not any(None in lv for lv in o.next[1]) else None,
+                                        av + pv, ao + po))
+                        elif k + 1 < K:
+                            # a call that does not end with 'continue' before the last byte: the caller would not feed the rest
+                            # (the property's premise is that every proper prefix is incomplete)
+                            unknown = True
+                            break
+                        else:
+                            pv, po = app(o)
+                            rc.add((o.err, bool(o.ret_nonnull), used + (o.consumed or 0),
+                                    T.canon(o.next) if o.err in (0, 1) and o.next is not None and not any(None in lv for lv in o.next[1]) else None,
+                                    av + pv, ao + po))
+                    if unknown:
+                        break
+                if unknown:
+                    break
+                frontier = nxt
+                if not frontier:
+                    break
+            if unknown:
+                continue
+            rw = {res for doms, res in W if all(d is None or tup[k] in d or (tup[k] - 256) in d for k, d in enumerate(doms))}
+            ncmp += 1
+            # the byte-per-call side starts every call with the fields that the configuration does not carry (the code point
+            # under construction) unconstrained, so it over-approximates; the one-call side may know them exactly.  A one-call
+            # outcome that no byte-per-call run can produce is the witness.
+            if not rw <= rc and bad is None:
+                bad = (cfg, bytes(tup), rc, rw)
+    sig = "%s: %d bytes, one call vs one byte per call" % (name, K)
+    if bad:
+        cfg, tup, rc, rw = bad
+
+        def fmt(rs):
+            return sorted("%s%s end=%s -> %s, %d input byte(s) and %d decoded piece(s) appended to the token"
+                          % (T.err_name.get(e, e), "+value" if v else "", c, T.cfg_str(nx) if nx else "-", av, ao) for e, v, c, nx, av, ao in rs)
+        chk.refuted(rid, "json_tokener_parse_ex", sig, "json_tokener.c",
+                    "from configuration %s the bytes %r parsed in one call give %s, but fed one byte per call they give %s"
+                    % (T.cfg_str(cfg), product.show(tup), fmt(rw - rc) or fmt(rw), fmt(rc - rw) or fmt(rc)),
+                    {"one_call": fmt(rw), "per_byte": fmt(rc)})
+    elif nconf == 0:
+        chk.undecided(rid, "json_tokener_parse_ex", sig, "json_tokener.c", "no configuration inside a token was evaluated")
+    else:
+        chk.proven(rid, "json_tokener_parse_ex", sig, "json_tokener.c",
+                   "%d configurations, %d byte sequences agree%s" % (nconf, ncmp, (" (%d configurations skipped: walk budget)" % skipped) if skipped else ""))
+    chk.floor(rid + "." + name, nconf, 5, "configurations inside tokens")
 
 
 def r10(chk, T, name):
